@@ -77,6 +77,8 @@ def _vanraden_like(ctx, which):
             e.assume(z3.And(R(panc[k]) > 0, R(panc[k]) < 1))
         X = [[R(mat[0, i, k] + mat[1, i, k]) for k in range(p)] for i in range(n)]
         Pk = [R(panc[k]) for k in range(p)]
+        snap_p = [_t(panc[k]) for k in range(p)]
+        snap_m = [_t(mat[a_, i, k]) for a_ in range(2) for i in range(n) for k in range(p)]
         if which == "VanRaden":
             G = C.from_gmat(pg, p_anc=panc)
             denom = 2 * sum((Pk[k] * (1 - Pk[k]) for k in range(p)), z3.RealVal(0))
@@ -100,6 +102,10 @@ def _vanraden_like(ctx, which):
                     e.prove(tag + ":G[%d,%d]==sum w (xi-2p)(xj-2p)" % (i, j), R(G.mat[i, j]) == num)
         e.prove(tag + ":symmetric", z3.And(*[R(G.mat[i, j]) == R(G.mat[j, i]) for i in range(n) for j in range(n)]))
         e.prove(tag + ":labels-carried", list(G.taxa) == list(pg.taxa))
+        # frame: the caller's reference frequencies and genotypes are inputs, not scratch space
+        e.prove(tag + ":frame:reference-frequencies-and-genotypes-not-modified",
+                all(_t(panc[k]).eq(snap_p[k]) for k in range(p))
+                and all(_t(mat[a_, i, k]).eq(snap_m[(a_ * n + i) * p + k]) for a_ in range(2) for i in range(n) for k in range(p)))
         return "ok"
     shapes = [(1, 1), (2, 1), (2, 2)] + ([(3, 2)] if ctx.tier == "thorough" else [])
     if which == "Yang":
